@@ -206,7 +206,8 @@ def run(ctx):
 
   # ---- 1. design: the bounded family with a time cursor -------------------------------------------------
   if thorough:
-    design = [(["chain", "chain_body", "mixed", "empty_leaf"], G.TIMINGS_FULL, 26), (["siblings", "spans", "set", "deep"], G.TIMINGS_SMALL, 30)]
+    design = [(["chain", "chain_body", "mixed"], G.TIMINGS_FULL, 26), (["siblings", "spans"], G.TIMINGS_SMALL[:8], 30),
+              (["set", "deep", "empty_leaf"], G.TIMINGS_SMALL[:8], 30)]
     enum = [(["chain", "chain_body", "mixed"], G.TIMINGS_FULL), (["siblings", "spans", "set", "deep", "empty_leaf"], G.TIMINGS_SMALL)]
   else:
     design = [(["chain", "mixed"], G.TIMINGS_SMALL, 22), (["siblings"], G.TIMINGS_SMALL[:6], 26)]
